@@ -1,7 +1,7 @@
 #!/usr/bin/env python3
 """Re-run every seeded change under /verif/seeded against the current quick checks (isolated, via mutx.py) and record
 the verdict in its meta.json (quick_check_verdict, quick_check_output_tail, swept_at_verif_commit).
-usage: seed_sweep.py [Cxx ...]   (default: all)"""
+usage: seed_sweep.py [Cxx ...]   (default: all); SWEEP_SUFFIX=KL restricts to seeds whose letter is in the set"""
 import glob, json, os, subprocess, sys
 want = [a.upper() for a in sys.argv[1:]]
 head = subprocess.run('git -C /verif rev-parse --short HEAD', shell=True, capture_output=True, text=True).stdout.strip()
@@ -9,6 +9,7 @@ last = None
 for d in sorted(glob.glob('/verif/seeded/*')):
     name = os.path.basename(d); prop = name.split('-')[0]
     if want and prop not in want: continue
+    if os.environ.get('SWEEP_SUFFIX') and name.split('-')[1] not in os.environ['SWEEP_SUFFIX']: continue
     if last and last != prop:
         subprocess.run(['/verif/tools/mutx.py', last, '--clean'], capture_output=True)
     last = prop
